@@ -55,15 +55,23 @@ def defaultsSuffix : Dict → Bool
   | [] => true
   | kv :: rest => (kv.2.default.isNone || rest.all (·.2.default.isSome)) && defaultsSuffix rest
 
+/-- what the class emitter needs of a default to write it so that it is read back unchanged (no `Optional[…]` / `[`
+    requirement: those concern `_set_name_and_type`, which the class parser applies to attributes only) -/
+def okEmit (t : String) : Default → Bool
+  | .int _ => true
+  | .float r => okNumRepr r
+  | .complex r => okNumRepr r && (isSimple t || needsQuoting (some t))
+  | .bool _ => true
+  | .str s => s == NoneStr || (if codeQuoted s then okCodeStr s else okPlainStr s && (needsQuoting (some t) || isSimple t))
+
 /-- class / pydantic: the return entry is an attribute `return_type` like the others (it is not passed through
-    `_set_name_and_type` on the way back, so a `None` default needs no `Optional[…]`) -/
+    `_set_name_and_type` on the way back, so a `None` default needs no `Optional[…]` and a code default no `[`) -/
 def okClassReturn (r : Param) : Bool :=
   match r.typ with
   | some t => okTyp t &&
     (match r.default with
      | none => true
-     | some (.val (.str s)) => s == NoneStr || (if codeQuoted s then okCodeStr s else okPlainStr s && (needsQuoting (some t) || isSimple t))
-     | some (.val d) => okDefault false t d
+     | some (.val d) => okEmit t d
      | some (.node _) => false)
   | none => false
 
@@ -144,8 +152,6 @@ def docView (tidy : Bool) : Option String → Option String
 def docQuiet (env : Env) (name : String) (isNone : Bool) (d0 : String) : Bool :=
   env.extractDefault true d0 == (d0, none) &&
   (d0 == "" || (env.adhocTyp (tidyDoc d0) name isNone == none && !startsWith (tidyDoc d0) "Optional" && !startsWith (tidyDoc d0) "(Optional)"))
-
-def isNoneStrD : Option DVal → Bool | some d => d.isNoneStr | none => false
 
 def forall2 {α β : Type} (f : α → β → Bool) : List α → List β → Bool
   | [], [] => true
